@@ -106,12 +106,6 @@ func c01Audit(c *core.Ctx, w *sim.World, k c01Case, tr *sim.TransferResult, keyP
 			if s.FromClient() != ds.ClientToServer && !(s.Proto == wire.CloseSessionRequest || s.Proto == wire.CloseSessionResponse) {
 				c.Violate(keyPrefix+"/wrong-direction-type", fmt.Sprintf("segment type %d travelling c2s=%v", s.Proto, ds.ClientToServer), k)
 			}
-			if s.IsSession() && len(s.Payload) > 1024 {
-				c.Violate("C14/session-payload-exceeds-1024", fmt.Sprintf("session segment carries %d bytes", len(s.Payload)), k)
-			}
-			if len(s.Payload) > 32768 {
-				c.Violate("C14/fragment-exceeds-32768", fmt.Sprintf("fragment of %d bytes", len(s.Payload)), k)
-			}
 			if s.IsData() || s.Proto == wire.OpenSessionRequest || s.Proto == wire.OpenSessionResponse {
 				if seen[s.SessionID] && s.Seq != nextSeq[s.SessionID] {
 					c.Violate(keyPrefix+"/seq-not-consecutive", fmt.Sprintf("session %d: seq %d after %d", s.SessionID, s.Seq, nextSeq[s.SessionID]-1), k)
@@ -199,6 +193,18 @@ func init() {
 			for i := range cases {
 				cases[i] = genC01(c.Rand, c.Thorough() && i%25 == 0)
 			}
+			// special: a reader that stalls for longer than any internal hand-over timeout while
+			// thousands of small segments are pending (back-pressure must not lose anything)
+			stall := genC01(c.Rand, false)
+			stall.MaxChunk, stall.Multiplex = 0, 1
+			many := make([]int, 5000)
+			for j := range many {
+				many[j] = 16
+			}
+			stall.Scripts = []sim.Script{{ClientWrites: many, ServerWrites: []int{100}, MaxRead: 65536, ServerStallMs: 6500},
+				{ClientWrites: []int{1000, 50000}, ServerWrites: []int{20000}, MaxRead: 1500}}
+			cases = append(cases, stall)
+			n = len(cases)
 			c.Sample(cases[0])
 			c.Sample(cases[1])
 			core.Parallel(n, 8, func(i int) { c01Run(c, cases[i]) })
